@@ -103,6 +103,14 @@ Theorem C12_numeric_sort_end_to_end : forall S vals,
 Proof. exact numeric_sort_order. Qed.
 Print Assumptions C12_numeric_sort_end_to_end.
 
+(* the link to the sorter's own key function: a row whose key field holds a number gets the key nkey of its dyadic form *)
+Theorem C12_numeric_key_is_nkey : forall f r v me,
+  rget r f = Some v -> dyadic_of v = Some me ->
+  (match v with VStr _ | VNull => False | _ => True end) ->
+  key_calc [f] r = Ok (nkey me).
+Proof. exact key_calc_numeric. Qed.
+Print Assumptions C12_numeric_key_is_nkey.
+
 (* premises are satisfiable: 2.5 < 3 (5*2^-1 vs 3*2^0, scale -52) *)
 Example C12_numeric_nonvacuous : num_key 5 (-1) < num_key 3 0 /\ num_key (-3) 0 < num_key (-5) (-1).
 Proof. vm_compute. split; reflexivity. Qed.
